@@ -237,6 +237,10 @@ func (e *evalEnv) eval(n *Node) *Val {
 		if skolem {
 			// the quantifier disappears: the variable is a fresh arbitrary constant
 			k := vc.fresh("sk_"+n.Name, "Int")
+			// quantified hypotheses assumed earlier are instantiated at this constant
+			for _, h := range vc.hyps {
+				h(k)
+			}
 			e.bound[n.Name] = k
 			body := e.eval(n.Args[2]).L[0]
 			delete(e.bound, n.Name)
@@ -247,6 +251,37 @@ func (e *evalEnv) eval(n *Node) *Val {
 			return bval(and(rng, body))
 		}
 		// a real quantifier: the body must be a closed term (no named abbreviations)
+		if n.Kind == "forall" && e.pol == +1 && vc.noDefine == 0 && len(e.bound) == 0 {
+			// remember the hypothesis so that it can be instantiated at the skolem
+			// constants of later goals (the quantifier-free pass needs the instances)
+			hn, hscope, hst, hold, hfr := n, e.scope, e.st, e.old, e.fr
+			hlets := vc.curLets
+			vc.hyps = append(vc.hyps, func(at string) {
+				saveLets := vc.curLets
+				vc.curLets = hlets
+				saveReach, saveSt := hfr.reach, hfr.st
+				vc.specDepth++
+				env := &evalEnv{fr: hfr, scope: hscope, st: hst, old: hold, bound: map[string]string{hn.Name: at}, pol: +1}
+				func() {
+					defer func() {
+						if r := recover(); r != nil {
+							if _, ok := r.(evalError); !ok {
+								panic(r)
+							}
+						}
+					}()
+					env.pol = 0
+					l := env.intOf(env.eval(hn.Args[0]))
+					h := env.intOf(env.eval(hn.Args[1]))
+					env.pol = +1
+					b := env.eval(hn.Args[2]).L[0]
+					vc.cmd("(assert " + imp(and(le(l, at), lt(at, h)), b) + ")")
+				}()
+				vc.specDepth--
+				hfr.reach, hfr.st = saveReach, saveSt
+				vc.curLets = saveLets
+			})
+		}
 		k := vc.name("q_" + n.Name)
 		e.bound[n.Name] = k
 		vc.noDefine++
@@ -254,10 +289,33 @@ func (e *evalEnv) eval(n *Node) *Val {
 		vc.noDefine--
 		delete(e.bound, n.Name)
 		rng := and(le(lo, k), lt(k, hi))
+		var qt string
 		if n.Kind == "forall" {
-			return bval(fmt.Sprintf("(forall ((%s Int)) %s)", k, imp(rng, body)))
+			qt = fmt.Sprintf("(forall ((%s Int)) %s)", k, imp(rng, body))
+		} else {
+			qt = fmt.Sprintf("(exists ((%s Int)) %s)", k, and(rng, body))
 		}
-		return bval(fmt.Sprintf("(exists ((%s Int)) %s)", k, and(rng, body)))
+		if vc.noDefine == 0 && len(e.bound) == 0 {
+			// instantiation hints (valid for any term c): forall => body(c), body(c) => exists,
+			// at the loop counters of the function
+			for _, c := range e.fr.intCandidates() {
+				e.bound[n.Name] = c
+				save := e.pol
+				e.pol = 0
+				vc.noDefine++
+				b := e.eval(n.Args[2]).L[0]
+				vc.noDefine--
+				e.pol = save
+				delete(e.bound, n.Name)
+				inst := and(le(lo, c), lt(c, hi))
+				if n.Kind == "forall" {
+					vc.cmd("(assert " + imp(qt, imp(inst, b)) + ")")
+				} else {
+					vc.cmd("(assert " + imp(and(inst, b), qt) + ")")
+				}
+			}
+		}
+		return bval(qt)
 	case "sel":
 		return e.sel(n)
 	case "index":
@@ -728,6 +786,44 @@ func (e *evalEnv) call(n *Node) *Val {
 		// raw payload (address) of an interface value
 		x := e.eval(args[0])
 		return &Val{T: types.Typ[types.Int], L: []string{x.L[1]}}
+	case "eqv":
+		// value equality as an accessor user sees it: scalars and pointers by ==,
+		// strings and byte slices by content
+		a, b := e.eval(args[0]), e.eval(args[1])
+		a, b = e.coerce(a, b)
+		if (isStringT(a.T) || isSliceT(a.T)) && (isStringT(b.T) || isSliceT(b.T)) && len(flatten(elemOf(a.T))) == 1 {
+			lf := flatten(elemOf(a.T))[0]
+			rememberLeaf(lf)
+			vc := fr.vc
+			sa, sb := e.st, e.st
+			if a.St != nil {
+				sa = a.St
+			}
+			if b.St != nil {
+				sb = b.St
+			}
+			arrA, arrB := vc.arr(sa, lf), vc.arr(sb, lf)
+			lenEq := eq(a.L[1], b.L[1])
+			if e.pol == -1 {
+				k := vc.fresh("sk_eqv", "Int")
+				vc.instantiate(arrA, add(a.L[0], k), 0)
+				vc.instantiate(arrB, add(b.L[0], k), 0)
+				return bval(and(lenEq, imp(and(le("0", k), lt(k, a.L[1])), eq(sel(arrA, add(a.L[0], k)), sel(arrB, add(b.L[0], k))))))
+			}
+			k := vc.name("q_k")
+			return bval(and(lenEq, fmt.Sprintf("(forall ((%s Int)) (=> (and (<= 0 %s) (< %s %s)) (= (select %s (+ %s %s)) (select %s (+ %s %s)))))", k, k, k, a.L[1], arrA, a.L[0], k, arrB, b.L[0], k)))
+		}
+		return bval(e.equal(a, b))
+	case "sameFormat":
+		// the string was produced by fmt.Sprintf from the given constant format
+		s, f := e.eval(args[0]), e.eval(args[1])
+		return bval(eq(sel(fr.vc.strFmtArray(), s.L[0]), f.L[0]))
+	case "separate":
+		// the capacity ranges of two slices do not overlap
+		a, b := e.eval(args[0]), e.eval(args[1])
+		ea := intLit(int64(slots(elemOf(a.T))))
+		eb := intLit(int64(slots(elemOf(b.T))))
+		return bval(or(eq(a.L[2], "0"), eq(b.L[2], "0"), le(add(a.L[0], mul(a.L[2], ea)), b.L[0]), le(add(b.L[0], mul(b.L[2], eb)), a.L[0])))
 	case "disjoint":
 		// the element ranges of two slices do not overlap
 		a, b := e.eval(args[0]), e.eval(args[1])
@@ -736,6 +832,31 @@ func (e *evalEnv) call(n *Node) *Val {
 		return bval(or(eq(a.L[1], "0"), eq(b.L[1], "0"), le(add(a.L[0], mul(a.L[1], ea)), b.L[0]), le(add(b.L[0], mul(b.L[1], eb)), a.L[0])))
 	case "implies":
 		return bval(imp(e.eval(args[0]).L[0], e.eval(args[1]).L[0]))
+	}
+	// method call on a package type (accessors): inline its SSA, as for spec functions
+	if fn.Kind == "sel" {
+		recv := e.eval(fn.Args[0])
+		if recv.T != nil {
+			if m := fr.vc.w.methodOf(recv.T, fn.Name); m != nil {
+				av := []*Val{recv}
+				if !isPtrT(recv.T) && isPtrT(m.Params[0].Type()) {
+					e.fail("method %s needs an addressable receiver", fn.Name)
+				}
+				for _, a := range args {
+					av = append(av, e.eval(a))
+				}
+				fr.reach = tTrue
+				fr.st = e.st.clone()
+				res := fr.callFunc(nil, m, av, nil)
+				if res != nil {
+					r2 := *res
+					r2.St = fr.st
+					return &r2
+				}
+				return res
+			}
+		}
+		e.fail("unknown method %s", fn.Name)
 	}
 	// conversion to a named or basic type
 	if name != "" || fn.Kind == "paren" {
@@ -806,4 +927,33 @@ func (e *evalEnv) ioGlobal(name string) *Val {
 	}
 	e.fail("io.%s not found", name)
 	return nil
+}
+
+// intCandidates lists integer loop counters of the frame's function (and
+// their successors) as instantiation candidates for quantifiers.
+func (fr *Frame) intCandidates() []string {
+	var out []string
+	seen := map[string]bool{}
+	for _, b := range fr.fn.Blocks {
+		for _, ins := range b.Instrs {
+			phi, ok := ins.(*ssa.Phi)
+			if !ok {
+				break
+			}
+			v, ok := fr.vals[phi]
+			if !ok || len(v.L) != 1 {
+				continue
+			}
+			if l, ok := numLeaf(phi.Type()); !ok || l.Kind != lkInt {
+				continue
+			}
+			for _, c := range []string{v.L[0], add(v.L[0], "1")} {
+				if !seen[c] {
+					seen[c] = true
+					out = append(out, c)
+				}
+			}
+		}
+	}
+	return out
 }
